@@ -172,8 +172,25 @@ def gen_insertion(rng, var, idx, want_id):
 
 def gen_insertions(rng, var, max_n=3):
     n = rng.choice([0, 1, 1, 2, 2, 3][: max_n + 3])
-    want_id = rng.random() < 0.5
-    return [gen_insertion(rng, var, i, want_id) for i in range(n)]
+    mode = rng.choice(["all", "all", "none", "none", "mixed", "collide", "equal"])
+    out = [gen_insertion(rng, var, i, mode == "all") for i in range(n)]
+    dicts = [d for d in out if isinstance(d, dict)]
+    if mode == "mixed":
+        # some carry an id, some do not (the others are auto-numbered by position)
+        for i, d in enumerate(dicts):
+            if rng.random() < 0.5:
+                d["id"] = 10 + i
+    elif mode == "collide" and len(dicts) >= 2:
+        # COLLIDING insertion ids: one explicit id equals the number an id-less one is given automatically
+        # (1-based position among the surviving insertions); values must not depend on the ids at all
+        k = rng.randrange(len(dicts))
+        for i, d in enumerate(dicts):
+            d.pop("id", None)
+        dicts[k]["id"] = rng.choice([i + 1 for i in range(len(dicts)) if i != k] + [1])
+    elif mode == "equal" and len(dicts) >= 2:
+        for d in dicts:
+            d["id"] = 1
+    return out
 
 
 def lean_dim(var, view, transform, catdate=None):
